@@ -162,7 +162,7 @@ PROPS["C02"] = {
         "C02.C02_select_sound", "C02.C02_complete", "C02.C02_monotone", "C02.C02_monotone_offers", "C02.C02_order_independent",
         "C02.C02_invalid_ignored", "C02.C02_duplicate_counterexample_before_repair", "C02.C02_duplicate_repaired",
         "Clerk.select_sound", "Clerk.select_complete", "Clerk.normalize_noRepeat", "Clerk.normalize_covers", "Clerk.normalize_origin",
-        "Clerk.selectMerged_monotone",
+        "Clerk.selectMerged_monotone", "C02.C02_aggregate_verifies",
     ],
     "level_text": "Soundness of the selection, completeness and monotonicity are Lean theorems about a transliteration of "
                   "select_valid_signatures_for_k_indices for EVERY input list, with no side condition: whatever is handed over (repeated "
@@ -174,8 +174,9 @@ PROPS["C02"] = {
                   "count; completeness, monotonicity, order independence, 'result verifies' and 'honest single signatures verify' are "
                   "evaluated on the real code.",
     "level_note": "The validity bit of each signature is the real SingleSignature::verify verdict (an unregistered signer_index counts as "
-                  "invalid); sigma enters as the rank of its bytes. C02_aggregate_verifies (the selected set passes the C01 verifier) is "
-                  "checked by S only.",
+                  "invalid); sigma enters as the rank of its bytes. C02_aggregate_verifies (the selected set passes the C01 verifier model) "
+                  "is proved under completeness hypotheses on the primitives (lottery verdicts of valid signatures, batch path of registered "
+                  "leaves, BLS aggregate of valid signatures) and additionally checked by S on every successful aggregation.",
     "harness": [("harness", "c02")],
     "anchors": ["mithril-stm/src/proof_system/concatenation/clerk.rs", "mithril-stm/src/proof_system/concatenation/proof.rs",
                 "mithril-stm/src/proof_system/concatenation/signer.rs", "mithril-common/src/protocol/multi_signer.rs"],
@@ -187,7 +188,7 @@ PROPS["C02"] = {
     "trivial_tags": [],
     "trusted_base": ["rustc/cargo; harness bin c02; blst"],
     "assumptions": [],
-    "goals_not_proved": ["C02_aggregate_verifies: S only"],
+    "goals_not_proved": [],
 }
 
 PROPS["C04"] = {
